@@ -246,7 +246,7 @@ def schema_triples(facts):
 def dedupe(failures):
     seen = {}
     for f in failures:
-        key = f.get("signature", "") + "|" + f.get("what", "")
+        key = f.get("signature", "") + "|" + f.get("what", "") + "|" + (f.get("name", "") if str(f.get("name", "")).startswith("corpus:") else "")
         seen.setdefault(key, f)
         seen[key]["occurrences"] = seen[key].get("occurrences", 0) + 1
     return list(seen.values())
@@ -259,10 +259,10 @@ def search(ctx, broken):
     allp = probes_gc.all_probes() + [(n, s, m) for n, s, m, _ in gen]
     stress, _ = progs.run_programs(ctx.runner, allp, {"gc": "always", "quarantine": 1}, tag="s")
     calm, _ = progs.run_programs(ctx.runner, allp, {"gc": "never"}, tag="t")
-    ledger = {k.get("signature") for k in vlib.known_findings("C01")}
+    ledger_names = {n for k in vlib.known_findings("C01") if k.get("status") == "known" for n in k.get("only_names", [])}
     for (name, src, mods), a, n in zip(allp, stress, calm):
         uaf = a.get("uaf") if isinstance(a, dict) else None
-        if uaf and uaf_signature(uaf) not in ledger:
+        if uaf and name not in ledger_names:
             return [{"what": "a swept object was used", "program": src, "name": name, "events": uaf,
                      "modules": {k: v for k, v in mods.items() if k in src}, "failing_input": True}]
         if progs.canon_step(a) != progs.canon_step(n):
